@@ -429,6 +429,29 @@ Proof.
   - rewrite (rd_sparse_unset _ _ _ _ _ Okx Sx L) in RD. inversion RD. rewrite nth_repeat_in by lia. congruence.
 Qed.
 
+(* both exports have the same shape: whatever convention the code uses (np.squeeze: (n,k) without its axes of
+   length 1), the two storages use the same *)
+Lemma export_shape_same n k : sparse_export_shape n k = dense_export_shape n k.
+Proof. reflexivity. Qed.
+
+Lemma sim_export_shape s d a :
+  R s d -> do_export_shape s a = (s, snd (do_export_shape s a)) /\ do_export_shape d a = (d, snd (do_export_shape d a)) /\
+           snd (do_export_shape s a) = snd (do_export_shape d a).
+Proof.
+  intros HR. pose proof HR as [C [N [Is [Id HA]]]]. unfold do_export_shape.
+  pose proof (HA a) as Ha. unfold arel in Ha.
+  destruct (lookup a (attrs s)) as [x|] eqn:Lx; destruct (lookup a (attrs d)) as [y|] eqn:Ly; try contradiction.
+  2:{ auto. }
+  destruct Ha as [T [Z0 [[m [Sx Kx]] [[ne [st [rows Sy]]] _]]]]. rewrite Sx, Sy.
+  pose proof Is as [Nn [I1 _]]. pose proof Id as [_ [J1 _]].
+  pose proof (I1 _ _ Lx) as [_ [_ A3]]. rewrite Sx in A3. destruct A3 as [ND _].
+  pose proof (J1 _ _ Ly) as [_ [_ B]]. rewrite Sy in B. destruct B as [B1 [B2 _]].
+  destruct (fill_rows_spec (hp s) x (sn s) m (repeat (default_row (hp s) x) (Z.to_nat (sn s))) ND Kx (repeat_length _ _))
+    as [out [F1 _]].
+  rewrite F1. simpl. split; [reflexivity|]. split; [reflexivity|].
+  rewrite export_shape_same, B2, <- N, T, Z0. reflexivity.
+Qed.
+
 (* ------------------------------------------------------------------ one step of both worlds *)
 Definition addressed (n : Z) (o : op) : Prop :=
   match o with SetItem _ k _ | GetItem _ k | Update _ k _ _ => 0 <= k < n | _ => True end.
@@ -519,6 +542,9 @@ Proof.
       rewrite Q. destruct (sim_grow (tick s) (tick d) (m + 1) (iadd_list_amount (tick s) (m + 1)) (R_tick _ _ HR)) as [W HR']; [lia| |].
       * unfold iadd_list_amount. change (corner (tick s)) with (corner s). rewrite Cn. reflexivity.
       * split; [exact W|]. split; [exact HR'|reflexivity].
+  - (* ExportShape *)
+    unfold step. simpl. destruct (sim_export_shape (tick s) (tick d) a (R_tick _ _ HR)) as [E1 [E2 W]].
+    rewrite E1, E2. simpl. split; [now rewrite W|]. split; [exact HR|reflexivity].
 Qed.
 
 Lemma R_init c : R (init c) (init c).
@@ -701,6 +727,8 @@ Proof.
   - inversion E; subst; simpl; lia.
   - inversion E; subst; simpl; lia.
   - destruct (corner t); [inversion E; subst; simpl; lia|unfold grow in E; inversion E; subst; simpl; lia].
+  - unfold do_export_shape in E. repeat (match type of E with context [match ?x with _ => _ end] => destruct x end);
+      inversion E; subst; simpl; lia.
 Qed.
 
 Lemma do_get_corner s a k : corner (fst (do_get s a k)) = corner s.
@@ -730,6 +758,7 @@ Proof.
   - destruct (corner t) eqn:Cn; simpl; [exact Cn|exact Cn].
   - unfold do_create_sized. repeat (match goal with |- context [match ?x with _ => _ end] => destruct x end); reflexivity.
   - unfold do_register. repeat (match goal with |- context [match ?x with _ => _ end] => destruct x end); reflexivity.
+  - unfold do_export_shape. repeat (match goal with |- context [match ?x with _ => _ end] => destruct x end); reflexivity.
 Qed.
 
 (* ------------------------------------------------------------------ the full relation and the run *)
